@@ -50,7 +50,12 @@ pub fn property_of(c: Clause, scn: &Scenario) -> &'static str {
     }
 }
 
-/// the verdict of a run: its first event
-pub fn first_event(events: &[Event]) -> Option<&Event> {
-    events.iter().min_by_key(|e| e.step)
+/// every property an event counts against: a release that is wrong (holder, mode, count) while
+/// a user panic unwinds is a C05 violation and a C11 violation alike
+pub fn properties_of(e: &Event, scn: &Scenario) -> Vec<&'static str> {
+    let mut v = vec![property_of(e.clause, scn)];
+    if e.during_user_unwind && !scn.cfg.faults.raw_faults() && matches!(e.clause, Clause::BadRelease) {
+        v.push("C11");
+    }
+    v
 }
